@@ -36,6 +36,11 @@ def shards(tier, seed):
     tasks = A.make_shards(tier, "struct", extra={"full": tier == "thorough", "dup_every": 7})
     # large inputs: > 10 000 / 15 000 / 22 500 candidates where the candidates that arrive when a result buffer is
     # full are the ONLY candidate of some unit (a lost candidate makes the program infeasible or the partition wrong)
+    from .c02 import DE_SWEEP
+    FAR = [[0, 1], [5, 6], [0, 6], [2, 3]]
+    for u in (dict(n=4, k=1, T=6, labels=["x"], segs=FAR, sym=True), dict(n=5, k=1, T=6, labels=["x"], segs=FAR, sym=True)):
+        for i in range(0, len(DE_SWEEP), 3):
+            tasks.append({"universe": u, "shard": 0, "nshards": 1, "sweep": DE_SWEEP[i:i + 3], "full": False})
     fams = LONELY if tier == "thorough" else LONELY[:3]
     for f in fams:
         tasks.append({"lonely": list(f), "full": False})
@@ -89,7 +94,10 @@ def run(task):
     for spec in A.iter_task_specs(task):
         labels = A.spec_label_set(spec)
         sp = special(spec)
-        for recipe in A.menu(labels, full):
+        recipes = A.menu(labels, full)
+        if task.get("sweep"):
+            recipes = [{"k": "pos", "de": x} for x in task["sweep"]]
+        for recipe in recipes:
             key = h([spec, recipe])
             res["state_set"].append(key)
             for backend in backends():
